@@ -39,14 +39,23 @@ pub fn run_stroker_hist(l: &[i128]) -> Vec<i128> {
             Some(p) => p,
             None => continue,
         };
-        let a = reused.stroke(path, stroke, *res);
-        let b = PathStroker::new().stroke(path, stroke, *res);
-        let c = path.stroke(stroke, *res);
-        if a.is_some() {
+        // a panic is an outcome too: the reused stroker must panic exactly when a fresh one does
+        let a = std::panic::catch_unwind(std::panic::AssertUnwindSafe(|| reused.stroke(path, stroke, *res)));
+        let b = std::panic::catch_unwind(|| PathStroker::new().stroke(path, stroke, *res));
+        let c = std::panic::catch_unwind(|| path.stroke(stroke, *res));
+        let enc = |r: &std::thread::Result<Option<Path>>| match r {
+            Ok(p) => crate::c14::enc_path(p.as_ref()),
+            Err(_) => vec![-77],
+        };
+        if a.is_err() {
+            // the state of a stroker that panicked is unspecified: continue with a new one
+            reused = PathStroker::new();
+        }
+        if matches!(a, Ok(Some(_))) {
             some += 1;
         }
-        let ea = crate::c14::enc_path(a.as_ref());
-        if ea != crate::c14::enc_path(b.as_ref()) || ea != crate::c14::enc_path(c.as_ref()) {
+        let ea = enc(&a);
+        if ea != enc(&b) || ea != enc(&c) {
             bad += 1;
             if first < 0 {
                 first = k as i128;
@@ -94,4 +103,36 @@ pub fn run_draw_hist(l: &[i128]) -> Vec<i128> {
         }
     }
     vec![a1.iter().filter(|b| **b != 0).count() as i128, hist, rep, thr]
+}
+
+/// args: width(bits) scale1(bits) scale2(bits) aa <builder ops>
+/// The same stroke_path call on a fresh pixmap must give the same bytes whether or not the same path was stroked with the same
+/// Stroke under another transform just before on this thread, and on a brand-new thread.
+/// -> [bytes != 0, bytes differing between the two histories]
+pub fn run_stroke_repeat(l: &[i128]) -> Vec<i128> {
+    if l.len() < 5 {
+        return vec![-3];
+    }
+    let (width, s1, s2, aa) = (f(l[0]), f(l[1]), f(l[2]), l[3] != 0);
+    let path = match crate::c02::build_path(&l[4..]) {
+        Some(p) => p,
+        None => return vec![-4],
+    };
+    let draw = move |first: Option<f32>, path: &Path| -> Vec<u8> {
+        let mut paint = Paint::default();
+        paint.set_color_rgba8(10, 200, 90, 255);
+        paint.anti_alias = aa;
+        let stroke = Stroke { width, ..Stroke::default() };
+        if let Some(s) = first {
+            let mut scratch = Pixmap::new(64, 64).unwrap();
+            scratch.stroke_path(path, &paint, &stroke, Transform::from_scale(s, s), None);
+        }
+        let mut pm = Pixmap::new(64, 64).unwrap();
+        pm.stroke_path(path, &paint, &stroke, Transform::from_scale(s2, s2), None);
+        pm.data().to_vec()
+    };
+    let a = draw(Some(s1), &path);
+    let p2 = path.clone();
+    let b = std::thread::spawn(move || draw(None, &p2)).join().unwrap();
+    vec![a.iter().filter(|x| **x != 0).count() as i128, a.iter().zip(b.iter()).filter(|(x, y)| x != y).count() as i128]
 }
